@@ -176,6 +176,7 @@ structure VS (cfg : Cfg) where
   perm : List Nat       -- real worker id ↦ model index
   blocked : List Bool   -- real worker id ↦ is inside `condvar.wait`
   post : Bool           -- inside a call made after the final answer
+  inCall : Bool         -- between a `call` event and its `ret` event
   pushed : Bool         -- the current source call has pushed a unit
   -- how often each part of the abstraction was used (reported by the driver on request, `stats=1`)
   nSwap : Nat := 0      -- renamings of two workers
@@ -187,7 +188,7 @@ structure VS (cfg : Cfg) where
 
 def VS.start (cfg : Cfg) : VS cfg :=
   { path := Path.start cfg, perm := List.range cfg.initialWorkers,
-    blocked := List.replicate cfg.initialWorkers false, post := false, pushed := false }
+    blocked := List.replicate cfg.initialWorkers false, post := false, inCall := false, pushed := false }
 
 def showSys (s : Sys) : String :=
   s!"pc={repr s.pc} st={repr s.st} queue={s.queue} chan={repr s.chan} err={s.errStored} sd={s.shutdown} closed={s.closed} active={s.active} nd={s.nextDispatch} nr={s.nextReturn} ooo={s.ooo} ws={repr s.ws}"
@@ -272,19 +273,19 @@ where
     else pure v1
 
 /-- check-only events of a stutter iteration: the model stays at `top` -/
+def obsGood (s : Sys) (e : CEv) : Bool :=
+  s.pc == .top &&
+  match e with
+  | .top none => !s.ooo.contains s.nextReturn
+  | .err false => !s.errStored
+  | .st .reading => s.st == .reading
+  | .tryRecv .empty => s.chan.isEmpty
+  | .qlen true => decide (s.queue.length < 4)
+  | .src .more => true
+  | _ => false
+
 def onObs {cfg : Cfg} (v : VS cfg) (e : CEv) : R cfg :=
-  let s := v.path.sys
-  let good : Bool :=
-    s.pc == .top &&
-    match e with
-    | .top none => !s.ooo.contains s.nextReturn
-    | .err false => !s.errStored
-    | .st .reading => s.st == .reading
-    | .tryRecv .empty => s.chan.isEmpty
-    | .qlen true => decide (s.queue.length < 4)
-    | .src .more => true
-    | _ => false
-  if good then .ok { v with nObs := v.nObs + 1 }
+  if obsGood v.path.sys e then .ok { v with nObs := v.nObs + 1 }
   else .error "observation of a stutter iteration differs from the model state"
 
 def swapPerm (perm : List Nat) (i i2 : Nat) : List Nat :=
@@ -349,10 +350,13 @@ def isFinal : CPc → Bool
 
 def onEv {cfg : Cfg} (v : VS cfg) : Ev → R cfg
   | .call =>
-    if isFinal v.path.sys.pc then .ok { v with post := true, nPost := v.nPost + 1 } else pathStep v .call
-  | .drop => pathStep v .drop
+    if v.inCall then .error "call inside a call"
+    else if isFinal v.path.sys.pc then .ok { v with post := true, inCall := true, nPost := v.nPost + 1 }
+    else (pathStep v .call).map fun v' => { v' with inCall := true }
+  | .drop => if v.inCall then .error "drop inside a call" else pathStep v .drop
   | .ret r =>
-    if v.path.sys.pc == .idle (some r) then .ok { v with post := false }
+    if !v.inCall then .error "return without a call"
+    else if v.path.sys.pc == .idle (some r) then .ok { v with post := false, inCall := false }
     else .error "the call returned something else than the model"
   | .c e => if v.post then .ok v else onC v e
   | .obs e => if v.post then .ok v else onObs v e
